@@ -645,3 +645,38 @@ Definition written_denotes (tbl : list Q) (dflt : text) (c : wchart) (l : list b
   /\ hlookup S_PLAYLEVEL (d_headers d) = Some (w_version c)
   /\ d_lnobj d = w_lnobj c /\ d_wav d = w_samples c
   /\ (forall kv, In kv (w_misc c) -> In kv (d_headers d)).
+
+(* ================================================================ C05: tempo rows in ANY order ================================================================ *)
+(* The property ranges over all charts: the rows of the tempo list need not be in time order (TimingMap sorts them; the
+   writer's header '#BPM' takes the FIRST ROW and the '#BPMxx' ids follow row order).  [with_bpms c p]: the chart c with
+   tempo rows p; [time_ordered c]: c with its tempo rows put in time order. *)
+Definition with_bpms (c : wchart) (p : list bco) : wchart :=
+  mkW (w_hits c) (w_holds c) p (w_samples c) (w_lnobj c) (w_title c) (w_artist c) (w_version c) (w_misc c).
+Definition time_ordered (c : wchart) : wchart := with_bpms c (sort_by bco_lt (w_bpms c)).
+(* the domain of bms_write_denotes_any_order (decidable): the chart with its tempo rows in time order lies in write_dom;
+   i.e. the tempo rows are a permutation of a list of write_dom (offsets there are pairwise distinct) *)
+Definition write_dom_any (tbl : list Q) (mk : Z) (lay : slayout) (dflt : text) (c : wchart) : bool :=
+  write_dom tbl mk lay dflt (time_ordered c).
+(* the conclusion for rows in any order: as written_denotes, the tempo changes of the file (time order) against the rows
+   in TIME order, and the tempo in force at position 0 is the tempo of the earliest row (whatever '#BPM' says: the
+   tempo object the writer puts at measure 0 position 0 replaces it) *)
+Definition written_denotes_any (tbl : list Q) (dflt : text) (c : wchart) (l : list bcs) (d : denotation) : Prop :=
+  (exists hs, Permutation hs (d_hits d)
+     /\ Forall2 (fun h s => sh_col s = h_col h /\ time_rt tbl l (h_off h) (sh_time s)
+                            /\ sh_sample s = sample_of (w_samples c) (sample_id c dflt (h_sample h))) (w_hits c) hs)
+  /\ (exists ls, Permutation ls (d_holds d)
+     /\ Forall2 (fun h s => sl_col s = ho_col h /\ time_rt tbl l (ho_off h) (sl_time s)
+                            /\ time_rt tbl l (Qred (ho_off h + ho_len h)) (sl_time s + sl_len s)
+                            /\ sl_sample s = sample_of (w_samples c) (sample_id c dflt (ho_sample h))) (w_holds c) ls)
+  /\ Forall2 (fun b tb => (fst tb == bo_off b)%Q /\ snd tb = bo_bpm b) (sort_by bco_lt (w_bpms c)) (d_tempo d)
+  /\ (exists b0 rest, sort_by bco_lt (w_bpms c) = b0 :: rest /\ d_bpm0 d = bo_bpm b0)
+  /\ hlookup S_TITLE (d_headers d) = Some (w_title c) /\ hlookup S_ARTIST (d_headers d) = Some (w_artist c)
+  /\ hlookup S_PLAYLEVEL (d_headers d) = Some (w_version c)
+  /\ d_lnobj d = w_lnobj c /\ d_wav d = w_samples c
+  /\ (forall kv, In kv (w_misc c) -> In kv (d_headers d)).
+(* the narrow guard under which the '#BPM' header line itself shows the initial tempo: the first row is the earliest *)
+Definition first_row_earliest (c : wchart) : bool :=
+  match w_bpms c with
+  | b0 :: rest => forallb (fun b => Qle_bool (bo_off b0) (bo_off b)) rest
+  | [] => false
+  end.
